@@ -48,6 +48,12 @@ def cases(tier, seed):
         s = scat.gen_spheroid(rng, o, xmax=5.0, aspect=(0.3, 3.0)) if i % 2 == 0 else scat.gen_cylinder(rng, o, xmax=4.0, aspect=(0.5, 2.0))
         s["c"] = [0.0, 0.0, 0.0]
         s["rot"] = [float(rng.uniform(0, 2 * math.pi)), float(rng.uniform(0.05, math.pi - 0.05)), float(rng.uniform(0, 2 * math.pi))]
+        if i % 4 == 1:
+            # particle azimuth exactly on a detector azimuth (0, pi/2, pi): what a pixel grid aligned with the particle produces
+            s["rot"][2] = [0.0, math.pi, math.pi / 2][(i // 4) % 3]
+        if i % 8 == 3:
+            # axis exactly along / against the beam (its reversal is then exactly against / along)
+            s["rot"][1] = [0.0, math.pi][(i // 8) % 2]
         out.append({"id": "shape-%d" % i, "kind": "shape", "optics": o, "scat": s, "alpha": float(rng.uniform(0, 2 * math.pi)), "seed": [seed, "shape", i], "cost": 6})
     # hostile catalogue (chk build, each its own sentinel; cases share children, a death restarts the child)
     angles = [0.0, math.pi, 2 * math.pi, -0.3, -math.pi, 4.0, 7.0, -7.0, 1e3, -1e3, math.pi + 1e-12, 2 * math.pi + 1e-9, -1e-12, 100 * math.pi]
@@ -68,6 +74,10 @@ def cases(tier, seed):
                     out.append({"id": "host-size-%d" % k, "kind": "hostile", "what": what, "x": x, "aspect": asp, "m": m,
                                 "rot": [0.0, 0.4, 0.3], "flavour": "chk", "cost": 4, "timeout": 240})
                     k += 1
+    for j, r3 in enumerate([(0.0, 1e-7, 1e-7), (0.0, 1e-7, 0.0), (0.3, 1e-7, 1e-7), (0.0, math.pi - 1e-7, 1e-7), (1e-7, 1e-7, 1e-7), (0.0, 2e-7, 1e-7)]):
+        # orientations that coincide with the directions the Fortran code nudges by 1e-7 internally
+        out.append({"id": "host-nudge-%d" % j, "kind": "hostile", "what": ["spheroid", "cylinder"][j % 2], "x": 2.0, "aspect": 1.4, "m": [1.3, 0.0],
+                    "rot": list(r3), "flavour": "chk", "cost": 2})
     for j, (th, ph) in enumerate([(0.3, -0.1), (0.3, 7.0), (-0.2, 1.0), (3.5, 1.0), (0.0, 0.0), (math.pi, 2 * math.pi), (1.0, -1e3)]):
         out.append({"id": "host-det-%d" % j, "kind": "hostile", "what": "spheroid", "x": 2.0, "aspect": 1.3, "m": [1.2, 0.0], "rot": [0.0, 0.4, 0.3],
                     "det_angles": [th, ph], "flavour": "chk", "cost": 2})
